@@ -135,8 +135,6 @@ def _walk_common(res, reach):
     for name, (hits, misses, maxsize, cur) in ci.items():
         if maxsize is not None and cur >= maxsize:
             reach.probe(f"lru-full:{name}")
-        if hits:
-            reach.probe(f"lru-hit:{name}", 0)
 
 
 def _finding(prop, oracle, rec, detail, extra=None):
@@ -151,12 +149,12 @@ def _finding(prop, oracle, rec, detail, extra=None):
 # --------------------------------------------------------------------------
 
 
-def judge_history(prop, case, res, reach, refs, what=("events", "obs", "warn"), r2=False):
+def judge_history(prop, case, res, reach, refs, what=("events", "obs", "warn"), r2=False, skip_planned=False):
     """Every observation equals the same observation on a from-scratch build of
     the current logical state in a pristine process (C12 R1 / C13 / C14)."""
     findings = []
     for rec in res["log"]:
-        if "ref" not in rec:
+        if "ref" not in rec or (skip_planned and rec.get("planned")):
             continue
         ref_rec = refs.get(rec["ref"])
         reach.judged += 1
